@@ -2,7 +2,9 @@ pub mod routing;
 pub mod c01;
 pub mod c02;
 pub mod c03;
+pub mod c09;
 pub mod c10;
+pub mod c11;
 pub mod c13;
 
 use crate::engine::{Ctx, Report};
@@ -12,7 +14,9 @@ pub fn run(ctx: &Ctx) -> Option<Report> {
         "C01" => c01::run(ctx),
         "C02" => c02::run(ctx),
         "C03" => c03::run(ctx),
+        "C09" => c09::run(ctx),
         "C10" => c10::run(ctx),
+        "C11" => c11::run(ctx),
         "C13" => c13::run(ctx),
         _ => return None,
     })
@@ -24,7 +28,9 @@ pub fn replay(id: &str, case: &serde_json::Value) -> Option<Result<(), String>> 
         "C01" => c01::replay(case),
         "C02" => c02::replay(case),
         "C03" => c03::replay(case),
+        "C09" => c09::replay(case),
         "C10" => c10::replay(case),
+        "C11" => c11::replay(case),
         "C13" => c13::replay(case),
         _ => return None,
     })
@@ -34,6 +40,9 @@ pub fn replay(id: &str, case: &serde_json::Value) -> Option<Result<(), String>> 
 pub fn child(name: &str, args: &[String]) -> Option<i32> {
     Some(match name {
         "c02" => c02::child(args),
+        "c11sweep" => c11::child_sweep(args),
+        "c09zone" => c09::child_zone(),
+        "c09sweep" => c09::child_sweep(),
         _ => return None,
     })
 }
